@@ -24,6 +24,9 @@ def run(ck):
     ck.run_rule(k_all)
     ck.run_rule(k4_no_other_channel)
     ck.run_rule(k5_go_plumbing)
+    # the arm is of no use if a `ucinewgame` line can be swallowed before it is compared with the word (C07's I1.unconditional)
+    from .c07 import i1b_dispatch_unconditional
+    ck.run_rule(i1b_dispatch_unconditional)
 
 
 def k_all(ck):
